@@ -47,10 +47,10 @@ func (m *Machine) findStub(fn *ssa.Function) stubFn {
 	return nil
 }
 
-var stubTable map[string]stubFn
+var stubTable = map[string]stubFn{}
 
 func init() {
-	stubTable = map[string]stubFn{
+	base := map[string]stubFn{
 		// ---- intrinsics ----
 		"verifAnyBool":    func(c *stubCtx) { c.ret(c.m.newInput("bool", smt.SBool)) },
 		"verifAnyByte":    func(c *stubCtx) { c.ret(c.m.newInput("byte", smt.SBV(8))) },
@@ -195,6 +195,9 @@ func init() {
 			c.ret(smt.BV(64, uint64(len(c.m.heldLocks()))))
 		},
 		"verifThorough": func(c *stubCtx) { c.ret(smt.Bool(c.m.Cfg.Tier == "thorough")) },
+		"verifIte": func(c *stubCtx) {
+			c.ret(smt.Ite(c.args[0].(*smt.Term), c.args[1].(*smt.Term), c.args[2].(*smt.Term)))
+		},
 		"verifIsNative": func(c *stubCtx) { c.ret(smt.False) },
 		"verifMaxAlloc": func(c *stubCtx) {
 			r := smt.BV(64, 0)
@@ -362,6 +365,9 @@ func init() {
 			// identity comparison only (wrapped chains built by the fmt.Errorf stub are opaque)
 			c.ret(c.m.equal(c.args[0], c.args[1], c.ins))
 		},
+	}
+	for k, v := range base {
+		stubTable[k] = v
 	}
 }
 
